@@ -25,7 +25,7 @@ func (fe *FnExec) fail(format string, a ...interface{}) {
 func verifyFunction(p *Program, fn *ssa.Function, c *FuncContract, emit func(*Obligation), maxPaths int) (fe *FnExec) {
 	fe = &FnExec{P: p, Fn: fn, C: c, Mode: c.Mode, preludeSet: map[string]bool{}, initHeap: map[string]Term{},
 		emit: emit, maxPaths: maxPaths, strLits: map[string]Term{}, typeCodes: map[string]int{},
-		safetyOrd: map[ssa.Instruction]int{}, callOrd: map[ssa.Instruction]int{}, usedGhosts: map[int]bool{}, asyncCallees: map[string]bool{}}
+		safetyOrd: map[ssa.Instruction]int{}, callOrd: map[ssa.Instruction]int{}, usedGhosts: map[int]bool{}, asyncCallees: map[string]bool{}, guardOrd: map[ssa.Instruction]int{}}
 	defer func() {
 		if r := recover(); r != nil {
 			if ee, ok := r.(execError); ok {
@@ -133,6 +133,7 @@ func verifyFunction(p *Program, fn *ssa.Function, c *FuncContract, emit func(*Ob
 	}
 	fe.checkOnlyClauses()
 	fe.checkCallees()
+	fe.checkThreadCallees()
 	// every call-site clause of the contract must have been exercised on some path
 	if len(fe.errs) == 0 {
 		for i, cg := range c.CallGhosts {
@@ -142,6 +143,119 @@ func verifyFunction(p *Program, fn *ssa.Function, c *FuncContract, emit func(*Ob
 		}
 	}
 	return fe
+}
+
+// ---------------------------------------------------------------------------
+// lock discipline (C16). Declarations: "guarded T.f by m", "immutable T.f" (also for
+// package-level variables with "global"), and "thread any" on functions that may run
+// on a thread other than the frame loop's.
+//   every function: a store to a guarded location needs its mutex held (by this
+//     thread), a store to an immutable location needs a fresh object;
+//   thread-any functions: every field/global access must be to a fresh object, an
+//     immutable location (loads), or a guarded location with its mutex held.
+// The frame loop is the only writer of guarded locations, so its own unlocked reads
+// do not race; that single-writer fact is exactly what the store rule and the
+// thread-any rule (no stores without the lock, none at all to unguarded shared state)
+// establish.
+
+func (fe *FnExec) mutexHeld(st *State, key string, ref Term, owner string, mutex string) Term {
+	if strings.HasPrefix(key, "global:") {
+		// package-level mutex variable of the same package
+		pkg := key[len("global:"):]
+		pkg = pkg[:strings.LastIndex(pkg, ".")]
+		mref := fe.globalObjRef(pkg + "." + mutex)
+		v, err := st.loadField(mref, "sync.Mutex", "held", types.Typ[types.Bool])
+		if err != nil {
+			fe.fail("lock discipline: %v", err)
+		}
+		return v.(Scalar).T
+	}
+	mref := st.embRef(ref, owner, mutex)
+	v, err := st.loadField(mref, "sync.Mutex", "held", types.Typ[types.Bool])
+	if err != nil {
+		fe.fail("lock discipline: %v", err)
+	}
+	return v.(Scalar).T
+}
+
+// globalObjRef: the (constant, non-nil, pre-existing) reference standing for a
+// struct-typed package-level variable.
+func (fe *FnExec) globalObjRef(name string) Term {
+	n := fe.uninterp("globobj."+shortFn(name), nil, SInt)
+	fe.addPrelude("globobj:"+n, "(assert (and (not (= "+n+" 0)) (< (birth "+n+") now0) (= (tagof "+n+") 0)))")
+	return Term{n, SInt}
+}
+
+func (fe *FnExec) lockDiscipline(st *State, in ssa.Instruction, access string, key string, ref Term, owner string) {
+	p := fe.P
+	mutex, guarded := p.Guarded[key]
+	immutable := p.Immutable[key]
+	anyThread := fe.C.Thread == "any"
+	if !guarded && !immutable && !anyThread {
+		return
+	}
+	if fe.Fn.Name() == "init" && fe.Fn.Signature.Recv() == nil {
+		return // package initialisation runs before any other goroutine exists
+	}
+	if st.dead {
+		return
+	}
+	isGlobal := strings.HasPrefix(key, "global:")
+	fresh := TFalse
+	if !isGlobal {
+		fresh = Ge(birth(ref), fe.entryNow)
+	}
+	var goal Term
+	what := ""
+	switch {
+	case guarded:
+		if access == "load" && !anyThread {
+			return // the single writer thread reads its own writes
+		}
+		goal = Or(fresh, fe.mutexHeld(st, key, ref, owner, mutex))
+		what = access + " of " + shortFn(key) + " with " + mutex + " held"
+	case immutable:
+		if access == "load" {
+			return
+		}
+		goal = fresh
+		what = "store to immutable " + shortFn(key) + " only while the object is being constructed"
+	default: // thread any, location neither guarded nor immutable
+		goal = fresh
+		what = access + " of " + shortFn(key) + " from a request thread: the location is neither guarded by a mutex nor immutable"
+	}
+	fe.guardOrd[in]++
+	fe.assert(st, goal, fmt.Sprintf("guard/%s:%s@%s", access, shortFn(key), fe.siteName(in)), "guard", []string{"C16"}, what, in.Pos())
+}
+
+// checkThreadCallees: a function that may run on a request thread calls only such
+// functions among those under contract in /repo (static).
+func (fe *FnExec) checkThreadCallees() {
+	if fe.C.Thread != "any" {
+		return
+	}
+	seen := map[string]bool{}
+	for _, b := range fe.Fn.Blocks {
+		for _, in := range b.Instrs {
+			call, ok := in.(ssa.CallInstruction)
+			if !ok {
+				continue
+			}
+			f, ok := call.Common().Value.(*ssa.Function)
+			if !ok || f.Pkg == nil || !strings.HasPrefix(f.Pkg.Pkg.Path(), "github.com/TheCacophonyProject/thermal-recorder") || seen[f.String()] {
+				continue
+			}
+			seen[f.String()] = true
+			cc := fe.P.Contracts[f.String()]
+			status, raw := "unsat", "callee may run on a request thread"
+			if cc == nil || cc.Thread != "any" {
+				status, raw = "sat", "a function that may run on a request thread calls "+shortFn(f.String())+", which is not declared 'thread any' (its accesses are not checked against the lock discipline)"
+			}
+			fe.nObl++
+			fe.emit(&Obligation{Func: shortFn(fe.Fn.String()), Name: fe.oblName("guard/callee:" + f.Name()), Kind: "guard", Tags: []string{"C16"},
+				Text: raw, Pos: fe.pos(in.Pos()), Result: SolverResult{Status: status, Solver: "syntactic", Raw: raw}})
+		}
+	}
 }
 
 // ---------------------------------------------------------------------------
@@ -526,6 +640,9 @@ func (fe *FnExec) checkOnlyClauses() {
 
 func contractTags(c *FuncContract) []string {
 	set := map[string]bool{}
+	if c.Thread == "any" {
+		set["C16"] = true
+	}
 	for _, t := range c.Tags {
 		set[t] = true
 	}
@@ -793,7 +910,10 @@ func (fe *FnExec) assert(st *State, goal Term, name, kind string, tags []string,
 	o := &Obligation{Func: shortFn(fe.Fn.String()), Name: fe.oblName(name), Kind: kind, Tags: tags, Path: strings.Join(st.trace, " "),
 		Text: text, Pos: fe.pos(pos), Query: fe.buildQuery(st, goal, false, hdr), Watch: fe.watch}
 	fe.emit(o)
-	if !fe.noAssume && !(fe.Fn != nil && unmaskNames[fe.Fn.String()][fe.oblName(name)]) {
+	// lock-discipline obligations are never needed as lemmas for what follows; not assuming
+	// them keeps the known findings among them from colouring other properties' proofs
+	lockOnly := kind == "guard" || (len(tags) == 1 && tags[0] == "C16")
+	if !fe.noAssume && !lockOnly && !(fe.Fn != nil && unmaskNames[fe.Fn.String()][fe.oblName(name)]) {
 		st.assume(goal, "proved: "+name)
 	}
 }
@@ -1473,6 +1593,10 @@ func (fe *FnExec) get(st *State, v ssa.Value) SVal {
 	case *ssa.Function:
 		return Scalar{fe.funcRef(x)}
 	case *ssa.Global:
+		if typeKey(x.Type().(*types.Pointer).Elem()) == "sync.Mutex" {
+			// a package-level mutex is an object of its own (its ghost lock state lives in the heap)
+			return Scalar{fe.globalObjRef(x.String())}
+		}
 		return AddrV{Kind: "global", Glob: x, ElemT: x.Type().(*types.Pointer).Elem()}
 	case *ssa.Builtin:
 		fe.fail("builtin %s used as a value", x.Name())
@@ -1884,6 +2008,7 @@ func (fe *FnExec) store(st *State, in *ssa.Store, addr SVal, val SVal) {
 		case "local":
 			st.locals[a.Local] = val
 		case "field":
+			fe.lockDiscipline(st, in, "store", fieldKey(a.Owner, a.Field.Name()), a.Ref, a.Owner)
 			cs, _ := compsOf(a.ElemT)
 			for _, c := range cs {
 				fe.checkWrite(st, fieldKey(a.Owner, a.Field.Name())+c.suffix, a.Ref, in, "store")
@@ -1901,6 +2026,7 @@ func (fe *FnExec) store(st *State, in *ssa.Store, addr SVal, val SVal) {
 				fe.fail("%s: %v", fe.pos(in.Pos()), err)
 			}
 		case "global":
+			fe.lockDiscipline(st, in, "store", "global:"+a.Glob.String(), IntLit(0), "")
 			if fe.Mode != "permissive" {
 				fe.checkWrite(st, "global:"+a.Glob.String(), IntLit(0), in, "store-global")
 			}
@@ -1961,6 +2087,7 @@ func (fe *FnExec) unop(st *State, x *ssa.UnOp) {
 			case "local":
 				st.vals[x] = st.locals[a.Local]
 			case "field":
+				fe.lockDiscipline(st, x, "load", fieldKey(a.Owner, a.Field.Name()), a.Ref, a.Owner)
 				v, err := st.loadField(a.Ref, a.Owner, a.Field.Name(), a.ElemT)
 				if err != nil {
 					fe.fail("%s: %v", fe.pos(x.Pos()), err)
@@ -1973,7 +2100,12 @@ func (fe *FnExec) unop(st *State, x *ssa.UnOp) {
 				}
 				st.vals[x] = v
 			case "global":
+				fe.lockDiscipline(st, x, "load", "global:"+a.Glob.String(), IntLit(0), "")
 				v, err := st.loadGlobal(a.Glob.String(), a.ElemT)
+				if err != nil && fe.Mode == "permissive" {
+					// a package-level struct value the heap model does not carry: arbitrary
+					v, err = st.freshValue("glob", a.ElemT)
+				}
 				if err != nil {
 					fe.fail("%s: %v", fe.pos(x.Pos()), err)
 				}
